@@ -114,7 +114,7 @@ Json::Value baseline(uint64_t seed) {
   w.cgs.push_back(mkCg(r, "work/w3", 2, pid));
   Host& h = w.host;
   h.meminfo = {{"MemTotal", 16 << 20}, {"MemFree", 4 << 20}, {"MemAvailable", 8 << 20}, {"Buffers", 1024}, {"Cached", 4096}, {"SwapCached", 0}, {"SwapTotal", 4 << 20}, {"SwapFree", 1 << 20}};
-  h.vmstat = {{"nr_free_pages", 1000}, {"pgscan_kswapd", r.in(0, 100000)}, {"pgscan_direct", r.in(0, 100000)}, {"pswpin", 5}, {"pswpout", r.in(0, 100000)}};
+  h.vmstat = {{"nr_free_pages", 1000}, {"pgscan_kswapd", r.in(0, 100000)}, {"pgscan_direct", r.in(0, 100000)}, {"pswpin", 5}, {"pswpout", r.in(1000, 100000)}};
   h.swaps.push_back({4 << 20, 3 << 20});
   for (int i = 0; i < 3; i++) {
     h.mem_psi.some[i] = 5000;
@@ -140,6 +140,10 @@ Json::Value baseline(uint64_t seed) {
   cfg["rulesets"].append(rsOf("d_maa", plug("memory_above", {{"cgroup", "/,sys"}, {"threshold_anon", "1M"}, {"duration", "0"}}), {act}));
   cfg["rulesets"].append(rsOf("d_mr", plug("memory_reclaim", {{"cgroup", "work/*,sys"}, {"duration", "10"}}), {act}));
   cfg["rulesets"].append(rsOf("d_sf", plug("swap_free", {{"threshold_pct", "50"}}), {act}));
+  // swap is low throughout and nothing is ever swapped out (pswpout stays what it is): whatever is
+  // missing from /proc/vmstat at whatever tick, a swap-out rate that is unavailable is not a swap-out
+  // rate above 1 byte/s, so this ruleset's action never runs
+  cfg["rulesets"].append(rsOf("d_sfr", plug("swap_free", {{"threshold_pct", "100"}, {"swapout_bps_threshold", "1"}}), {plug("vp_action", {{"id", "a_sfr"}})}));
   cfg["rulesets"].append(rsOf("d_ex", plug("exists", {{"cgroup", "work/w*"}}), {act}));
   cfg["rulesets"].append(rsOf("d_nd", plug("nr_dying_descendants", {{"cgroup", "work/*,/"}, {"count", "2"}}), {act}));
   cfg["rulesets"].append(rsOf("d_dump", plug("dump_cgroup_overview", {{"cgroup", "work/*,sys"}, {"always", "true"}}), {act}));
@@ -236,6 +240,29 @@ Json::Value applyStaticFaults(const Json::Value& base, const Json::Value& faults
           if (kv.first != key) k.push_back(kv);
         v = k;
       };
+      if (f.isMember("at")) {
+        // the key is missing at that one tick only and back, unchanged, at the next
+        int at = f["at"].asInt();
+        int nt = (int)sc["ticks"].size();
+        if (at < 1 || at >= nt) continue;
+        Op without, with;
+        if (where == "memory.stat") {
+          Cg* c = w.find(f["cg"].asString());
+          if (!c) continue;
+          without.op = with.op = "set";
+          without.cg = with.cg = *c;
+          without.cg.pids.clear();
+          with.cg.pids.clear();
+          drop(without.cg.stat);
+        } else {
+          without.op = with.op = "host";
+          without.host = with.host = w.host;
+          drop(where == "vmstat" ? without.host.vmstat : without.host.meminfo);
+        }
+        sc["ticks"][at]["ops"].append(without.toJson());
+        if (at + 1 < nt) sc["ticks"][at + 1]["ops"].append(with.toJson());
+        continue;
+      }
       if (where == "vmstat") drop(w.host.vmstat);
       if (where == "meminfo") drop(w.host.meminfo);
       if (where == "memory.stat") {
@@ -385,6 +412,9 @@ Verdict judge(const Json::Value& c) {
     return v;
   }
   checkContainment(o.R, o.mutated, v);
+  for (auto& e : o.R.trace)
+    if (v.ok && e.k == "plugin" && e.s == "run" && e.s2 == "a_sfr")
+      v.fail("swap_free saw a swap-out rate of at least 1 byte/s at tick " + std::to_string(e.tick) + " although pswpout never changed (a statistic that is unavailable must not be reported as a value)");
   if (!v.ok) v.why += " under faults " + jstr(c["faults"]);
   if (o.hits > 0) v.nontrivial = true;
   for (auto& f : c["faults"]) v.labels.push_back("fault_" + f["kind"].asString());
@@ -443,12 +473,16 @@ std::vector<Json::Value> enumerate(uint64_t bseed) {
     f["where"] = "vmstat";
     f["key"] = kv.first;
     add(f);
+    f["at"] = 1;
+    add(f);
   }
   for (auto& kv : w.host.meminfo) {
     Json::Value f(Json::objectValue);
     f["kind"] = "dropkey";
     f["where"] = "meminfo";
     f["key"] = kv.first;
+    add(f);
+    f["at"] = 1;
     add(f);
   }
   for (auto& role : kRoles) {
@@ -459,6 +493,8 @@ std::vector<Json::Value> enumerate(uint64_t bseed) {
       f["where"] = "memory.stat";
       f["cg"] = role;
       f["key"] = kv.first;
+      add(f);
+      f["at"] = 1;
       add(f);
     }
   }
@@ -527,6 +563,7 @@ Json::Value gen() {
         const Cg* cc = w.find(cg);
         f["key"] = cc->stat[R(0, (int)cc->stat.size() - 1)].first;
       }
+      if (P(50)) f["at"] = R(1, 2);
     } else if (kind == 3) {
       f["kind"] = "dt_unknown";
     } else {
